@@ -679,18 +679,19 @@ def run(ctx):
                               "ofs": ofs, "M": 4, "nelec": [1, 1], "rseed": rng.randrange(1000), "retries": 6})
     # three spatial orbitals, exact bond dimension, several sweeps with OFS really switched on (CompressConfig entries in
     # `procedure`): exchanges are accepted late in the last sweep, after the snapshot that optimize_mps returns
-    for k in range(10 if thorough else 3):
+    for k in range(12 if thorough else 5):
         for spelled, sj in (("qc", False), ("qc", True)) + ((("sigma", True),) if thorough else ()):
             ofs_cases.append({"mode": "dmrg", "nsp": 3, "seed": rng.randrange(10 ** 6), "kind": rng.choice(["float", "dense"]), "spelled": spelled,
                               "swap_jw": sj, "ofs": "OFS-S" if k % 3 else "OFS-D/S", "M": 8, "nelec": rng.choice([[2, 1], [1, 2], [1, 1]]),
-                              "rseed": rng.randrange(1000), "sweeps": rng.choice([4, 5]), "retries": 8})
-    of_payloads = [{"cases": ch} for ch in chunks([c for c in ofs_cases if c["nsp"] < 3], 3)] + [{"cases": [c]} for c in ofs_cases if c["nsp"] >= 3]
+                              "rseed": rng.randrange(1000), "sweeps": [2, 2, 3, 2, 4][k % 5], "retries": 8})
+    of_payloads = [{"cases": ch} for ch in chunks([c for c in ofs_cases if c["nsp"] < 3], 3)] + [{"cases": ch} for ch in chunks([c for c in ofs_cases if c["nsp"] >= 3], 2)]
     of_res = ctx.impl_par("c17_ofs.py", of_payloads, timeout=1500)
     ofs_bad = []           # inconsistencies not explained by the symbol-name defect
     names_bad = []         # energy / state inconsistency for qc symbols with ofs_swap_jw=True
     ofs_assert = []
     n_swapped_runs = 0
     n_swaps_total = 0
+    n_late = 0
     n_ofs_skips = 0
     for (rc, r, raw), pl in zip(of_res, of_payloads):
         r = unfile(r)
@@ -718,6 +719,8 @@ def run(ctx):
                 n_swapped_runs += 1
                 nontriv += 1
             n_swaps_total += c.get("nswaps", 0)
+            if case["mode"] == "dmrg" and c.get("order") != c.get("order_mpo"):
+                n_late += 1          # exchanges were accepted after the snapshot optimize_mps returns
             sc = c["scale"]
             bad = None
             if c["spec"] > TOL:
@@ -747,7 +750,7 @@ def run(ctx):
             if bad:
                 rec = {"what": bad, "case": case, "observed": {k: v for k, v in c.items() if k != "case"},
                        "used": [c.get("used_seed", case["seed"]), c.get("used_rseed", case["rseed"])]}
-                if case["spelled"] == "qc" and case["swap_jw"]:
+                if case["spelled"] == "qc" and case["swap_jw"] and covered is False:
                     names_bad.append(rec)
                 else:
                     ofs_bad.append(rec)
@@ -838,14 +841,14 @@ Hs = sum(L.term_dense(t, 2 * %(nsp)d) for t in L.flat_terms(terms)); assert abs(
         ctx.violation("ofs-consistency", "dense oracle: energy / state / electron numbers / spectrum changed by on-the-fly swapping "
                       "(returned state read in the site order of its own model vs reported energy, exact sector ground state and Mpo(result.model))",
                       {"failures": ofs_bad[:6], "n_failures": len(ofs_bad)}, found=first is not None, repro=rp)
-    if n_swapped_runs == 0 or n_swaps_total == 0:
-        ctx.violation("ofs-oracle-vacuous", "dense oracle: no OFS run ended in a permuted site order (%d exchanges counted) -- on-the-fly swapping "
-                      "was not exercised, the OFS clauses of C17 are unchecked in this run" % n_swaps_total,
+    if n_swapped_runs == 0 or n_swaps_total == 0 or (n_late == 0 and not ofs_bad):
+        ctx.violation("ofs-oracle-vacuous", "dense oracle: OFS not exercised enough in this run (%d runs ended in a permuted order, %d exchanges, %d optimize_mps runs with "
+                      "exchanges after the returned snapshot) -- the OFS clauses of C17 are unchecked" % (n_swapped_runs, n_swaps_total, n_late),
                       {"runs": len(ofs_cases)}, found=False)
     ctx.notes.append("term classes matched: %d of %d model classes (n=%s); rule pairs compared: %d; swap sequences: %d (%d hit the swap_site assertion); "
-                     "few-term operator cases: %d (%d exchange steps compared with the kron reference); OFS runs: %d (%d ended in a permuted order); qc symbols + swap_jw=True operator steps: %d plain / %d fermionic"
+                     "few-term operator cases: %d (%d exchange steps compared with the kron reference); OFS runs: %d (%d ended in a permuted order, %d exchanges in total, %d optimize_mps runs with exchanges after the returned snapshot, %d retries after the registered swap_site assertion); qc symbols + swap_jw=True operator steps: %d plain / %d fermionic"
                      % (len(seen_classes), total_classes, sorted(model_terms), n_rule_pairs, len(swap_cases), len(swap_assert), len(ft_cases), n_ft_steps, len(ofs_cases),
-                        n_swapped_runs, n_swaps_total, n_ofs_skips, qc_true_plain, qc_true_fermi))
+                        n_swapped_runs, n_swaps_total, n_late, n_ofs_skips, qc_true_plain, qc_true_fermi))
     return {"evaluations": ev, "distinct_nontrivial": nontriv,
             "rule": "distinct (n, index tuple) term classes on which qc_model's term (per-site words, sign, quantum numbers) equals the Coq model's "
                     "+ word pairs on which the swap rule changes an operator and agrees with the model + swap sequences with >= 1 executed step + few-term operator plans whose every step matched the kron reference "
@@ -854,4 +857,4 @@ Hs = sum(L.term_dense(t, 2 * %(nsp)d) for t in L.flat_terms(terms)); assert abs(
             "input_distribution": dist,
             "term_classes_total": total_classes, "term_classes_matched": len(seen_classes),
             "rule_pairs": n_rule_pairs, "fewterm_cases": len(ft_cases), "fewterm_steps": n_ft_steps, "swap_sequences": len(swap_cases), "swap_assertions": len(swap_assert),
-            "ofs_runs": len(ofs_cases), "ofs_runs_permuted": n_swapped_runs, "ofs_exchanges": n_swaps_total, "ofs_retries": n_ofs_skips, "qc_covered_by_rule": covered, "qc_counterexample": witness}
+            "ofs_runs": len(ofs_cases), "ofs_runs_permuted": n_swapped_runs, "ofs_exchanges": n_swaps_total, "ofs_retries": n_ofs_skips, "ofs_late_swap_runs": n_late, "qc_covered_by_rule": covered, "qc_counterexample": witness}
